@@ -133,6 +133,10 @@ def run(chk, w):
     # ---- DIR
     dir_rule(chk, P, "C09-DIR")
 
+    # ---- NULL names (shared with C17): a command naming nothing is refused, not dereferenced
+    from .. import nullparam
+    nullparam.run(chk, P, "C09-NULL", set(w.api), lambda f_: f_.relfile.startswith("src/highlevel/bidib_highlevel_setter"), 10)
+
     # ---- SPD: the speed magnitude handed to the encoder leaves room for the +1 offset below the direction bit
     chk.rule("C09-SPD", "every speed magnitude handed to the DCC speed encoder is within 0..mask-1 (out-of-range speeds are rejected before), so the direction bit is never disturbed")
     E = intervals.Engine(w, set())
